@@ -653,6 +653,8 @@ def gen_reader(dbmap_path, outp, tier):
             "integers": [str(i) for i in range(n)],
             "integers-reversed": [str(n - 1 - i) for i in range(n)],
             "tokens": ["ref with spaces & <odd> chars %d" % i for i in range(n)],
+            # characters that Unicode calls white space but XML does not (a referent is any string)
+            "unicode-space-padded": ["\u00a0%d\u3000" % i for i in range(n)],
         }
 
     def rotations(k):
